@@ -106,7 +106,8 @@ theorem sched_known_mono {s s' : Sched.State} {l : Sched.Label} (h : Sched.step 
 /-- Only a `write` touches what a message was accepted with, and only for an id the queue has never heard of. -/
 theorem step_orig {fb : Bool} {q q' : State} {l : Label} (h : step fb q l = some q') :
     q'.orig = q.orig ∧ q'.nonNull = q.nonNull ∨
-    ∃ id ts r nn, l = .write id ts r nn ∧ q'.orig = upd q.orig id (some r) ∧ q'.nonNull = upd q.nonNull id nn ∧ id ∉ q.s.known := by
+    ∃ id ts r nn, l = .write id ts r nn ∧ q'.orig = upd q.orig id (some r) ∧ q'.nonNull = upd q.nonNull id nn ∧ id ∉ q.s.known ∧
+      id ∉ Sched.sIds q.s := by
   cases l with
   | write id ts r nn =>
     right
@@ -117,7 +118,7 @@ theorem step_orig {fb : Bool} {q q' : State} {l : Label} (h : step fb q l = some
     · simp only at h
       split at h
       · simp only [Option.some.injEq] at h; subst h
-        refine ⟨id, ts, r, nn, rfl, rfl, rfl, ?_⟩
+        refine ⟨id, ts, r, nn, rfl, rfl, rfl, ?_, (sched_write hss).1⟩
         simp only [toSched, Sched.step] at hss
         split at hss
         · simp at hss
@@ -159,17 +160,89 @@ theorem write_recorded {fb : Bool} {q0 q : State} {ls : List Label} (hr : ReachT
     rcases List.mem_append.mp hm with hm | hm
     · obtain ⟨ho, hn, hk⟩ := ih hm
       refine ⟨?_, ?_, hmono hk⟩
-      · rcases step_orig hs with h | ⟨id', _, r', _, _, h, _, hnk⟩
+      · rcases step_orig hs with h | ⟨id', _, r', _, _, h, _, hnk, _⟩
         · rw [h.1]; exact ho
         · have : id ≠ id' := fun e => hnk (e ▸ hk)
           rw [h, upd_ne _ _ this]; exact ho
-      · rcases step_orig hs with h | ⟨id', _, r', _, _, _, h, hnk⟩
+      · rcases step_orig hs with h | ⟨id', _, r', _, _, _, h, hnk, _⟩
         · rw [h.2]; exact hn
         · have : id ≠ id' := fun e => hnk (e ▸ hk)
           rw [h, upd_ne _ _ this]; exact hn
     · simp only [List.mem_singleton] at hm
       subst hm
       exact step_write hs
+
+/-- A stored id stays stored unless this very step removes it (and then the removal was pending). -/
+theorem sched_ids {s s' : Sched.State} {l : Sched.Label} (h : Sched.step s l = some s') {id : Nat} (hid : id ∈ Sched.sIds s) :
+    id ∈ Sched.sIds s' ∨ (l = .remove id ∧ id ∈ s.rem) := by
+  cases l with
+  | write i ts => left; have := congrArg View.ids (sched_write h).2; simp only [view] at this; rw [this]; simp [hid]
+  | activate i =>
+    left
+    have := (sched_activate h).2
+    split at this <;> (have := congrArg View.ids this; simp only [view] at this; rw [this]; exact hid)
+  | announce i ts => left; have := congrArg View.ids (view_frame h trivial); simp only [view] at this; rw [this]; exact hid
+  | tick dt => left; have := congrArg View.ids (view_frame h trivial); simp only [view] at this; rw [this]; exact hid
+  | sched => left; have := congrArg View.ids (view_frame h trivial); simp only [view] at this; rw [this]; exact hid
+  | sleep => left; have := congrArg View.ids (view_frame h trivial); simp only [view] at this; rw [this]; exact hid
+  | poke => left; have := congrArg View.ids (view_frame h trivial); simp only [view] at this; rw [this]; exact hid
+  | flush => left; have := congrArg View.ids (view_frame h trivial); simp only [view] at this; rw [this]; exact hid
+  | dequeue i c =>
+    left
+    have := sched_dequeue h
+    split at this <;> (have := congrArg View.ids this; simp only [view] at this; rw [this]; exact hid)
+  | done i ok =>
+    left
+    have := congrArg View.ids (sched_done h).2
+    cases ok <;> (simp only [view] at this; rw [this]; exact hid)
+  | retry i w =>
+    left
+    cases w with
+    | none => have := congrArg View.ids (sched_retry_none h).2; simp only [view] at this; rw [this]; exact hid
+    | some w => have := congrArg View.ids (sched_retry_some h).2; simp only [view] at this; rw [this]; exact hid
+  | requeue i => left; have := congrArg View.ids (sched_requeue h).2; simp only [view] at this; rw [this]; exact hid
+  | remove i =>
+    obtain ⟨hrem, hv⟩ := sched_remove h
+    by_cases hi : i = id
+    · subst hi; exact Or.inr ⟨rfl, hrem⟩
+    · left
+      have := congrArg View.ids hv
+      simp only [view] at this
+      rw [this]
+      simp only [Sched.sIds, List.mem_map] at hid ⊢
+      obtain ⟨e, he, rfl⟩ := hid
+      exact ⟨e, List.mem_filter.mpr ⟨he, by simpa using Ne.symm hi⟩, rfl⟩
+
+/-- **What a message was accepted with is never rewritten**: for an id the storage holds or the queue knows at the start, in
+    every later state of every history `orig` is what it was (a second `write` of the id is impossible: the scheduler refuses the
+    write of a stored or known id, and a stored id leaves the storage only through a removal the queue itself decided, which
+    makes it known for good). -/
+theorem orig_of_start {fb : Bool} {q0 q : State} {ls : List Label} (hT : ReachT fb q0 ls q) (hinv : Inv fb q0) {id : Nat}
+    {r : List Rcpt} (h0 : q0.orig id = some r) (hs : id ∈ Sched.sIds q0.s ∨ id ∈ q0.s.known) :
+    q.orig id = some r ∧ (id ∈ Sched.sIds q.s ∨ id ∈ q.s.known) ∧ Inv fb q := by
+  induction hT with
+  | init => exact ⟨h0, hs, hinv⟩
+  | @step ls q q' l hprev hc hstep ih =>
+    obtain ⟨ho, hsk, hI⟩ := ih
+    have hss := step_sched hstep
+    refine ⟨?_, ?_, inv_step hI hc hstep⟩
+    · rcases step_orig hstep with h | ⟨id', _, r', _, _, h, _, hnk, hns⟩
+      · rw [h.1]; exact ho
+      · have : id ≠ id' := by
+          intro e; subst e
+          rcases hsk with h1 | h1
+          · exact hns h1
+          · exact hnk h1
+        rw [h, upd_ne _ _ this]; exact ho
+    · rcases hsk with h1 | h1
+      · rcases sched_ids hss h1 with h2 | ⟨_, hrem⟩
+        · exact Or.inl h2
+        · right
+          apply sched_known_mono hss
+          apply hI.sched.known id
+          right; right; left
+          exact (hI.sched.act id).mpr (Or.inr (Or.inr (Or.inr hrem)))
+      · exact Or.inr (sched_known_mono hss h1)
 
 /-- Labels whose calmness asks nothing of the environment. -/
 def quiet : Label → Prop
